@@ -15,7 +15,7 @@ def run(tier, t0):
                   counter="carry_returning_calls_in_modular_routines", stale_check=False, body_filter=c07.in_scope)
         c07.run_completeness(f, rep, cfg)
     rep.stale = []
-    rep.floor("carry_returning_calls_in_modular_routines", 40)
+    rep.floor("carry_returning_calls_in_modular_routines", 30)
     rep.floor("modular_routines", 30)
     return finish(rep, tier, t0,
                   explanation="two structural necessary conditions of C07: the correction by p is decided by the carry / borrow "
